@@ -464,6 +464,7 @@ func sizesFor(count int, pattern int) []int {
 
 func run(c *hl.Ctx) {
 	retention(c)
+	reuse(c)
 	correlated(c)
 	mutation(c)
 	c.Rule("E3 bounded-exhaustive. NAL units: all 256 header bytes x sizes {1,2,3,255,256,257,65535,65536} (thorough: every size 1..1024 + 65534..65537). Records: profile, compatibility, level each over all 256 values (one at a time, per length size); " +
@@ -471,10 +472,10 @@ func run(c *hl.Ctx) {
 		"all 256 first bytes of the first SPS and of the first PPS; (profile, level) pairs with derived compatibility and length size (quick: boundary rows/columns + diagonal, thorough: all 65536); 31 SPS and 255 PPS of 65535 bytes (thorough). Each record: ISO writer -> library reader -> library writer (byte-exact), and for compat=0 " +
 		"(the API cannot set it) API-built -> library writer == ISO writer, then library reader. Samples: length size 1..4 x all NAL size lists of length <= 3 (thorough 4) over the sizes fitting the prefix " +
 		"{1,2,255 | 256,65535 | 65536 | 16777215,16777216 (thorough, single)} + all 256 first header bytes, both directions byte-exact. " +
-		"Non-trivial = distinct case (hash of kind + leading bytes/sizes) whose every judged clause was exercised and held with at least one NAL unit or a full record." + mutationRule + correlatedRule)
+		"Non-trivial = distinct case (hash of kind + leading bytes/sizes) whose every judged clause was exercised and held with at least one NAL unit or a full record." + mutationRule + correlatedRule + reuseRule)
 	c.Assume("the reference writer/parser (engine/ref/avcref, from ISO/IEC 14496-15 5.2.4.1.1 / 5.3.4.2 and 14496-10 7.3.1) is correct",
 		"payload bytes are one fixed position-dependent pattern with embedded 00 00 01",
-		"values are unmarshalled into fresh objects (reuse of an object across UnmarshalBinary calls appends and is not judged)",
+		"outside the unmarshal histories of reuse.go values are unmarshalled into fresh objects",
 		"a NAL unit with forbidden_zero_bit set is non-canonical: only its fields and payload are compared, not its re-marshalled bytes")
 	idx := 0
 	next := func() bool { idx++; return c.Mine(idx) }
@@ -688,6 +689,10 @@ func replay(c *hl.Ctx, raw json.RawMessage) {
 		var cs mutCase
 		json.Unmarshal(raw, &cs)
 		runHistory(c, &cs)
+	case "reuse":
+		var cs reuseCase
+		json.Unmarshal(raw, &cs)
+		runReuse(c, &cs)
 	case "retention":
 		c.NShards = 1
 		retention(c)
